@@ -672,6 +672,7 @@ class GenH:
         self.coeff_sizes = []
         self.smc = None
         self.ph = None
+        self.coords = []
 
 
 def assign_parts(n):
@@ -911,7 +912,10 @@ def tr_genhinfo():
                             raise TranslateError("modf stores the integer part into %s" % tgt)
                         nmodf += 1
                         cn = st.fresh("c%d" % nmodf)
-                        st.lets.append("let %s := %s in" % (cn, fcoq(src.t, "rd")))
+                        g.coords.append("(** argument of the %s std::modf split *)\n"
+                                        "Definition gen_rot_c%d (cos_dt sin_dt : K) (at0 at1 : Z -> K) (delta0 delta1 zerobin0 zerobin1 : K) (x0 y0 : Z) : K :=\n  %s." %
+                                        (["first", "second"][nmodf - 1] if nmodf <= 2 else "next", nmodf, fcoq(src.t, "rd")))
+                        st.lets.append("let %s := gen_rot_c%d cos_dt sin_dt at0 at1 delta0 delta1 zerobin0 zerobin1 x0 y0 in" % (cn, nmodf))
                         st.env[tgt] = F(("ipart", ("var", cn)))
                         st.env[nm] = F(("var", "(fpart %s)" % cn))
                         continue
@@ -976,7 +980,7 @@ def tr_genhinfo():
             ("\n  ".join(st.lets), result))
     g.defs.append("(** calcCoefficiants calls: (size of the target array, number of weights written) *)\n"
                   "Definition gen_rot_coeff_sizes %s : list (Z * Z) := [%s]." % (SIZES, "; ".join(g.coeff_sizes)))
-    return g.defs, main, outp
+    return g.defs, "\n".join(g.coords) + "\n" + main, outp
 
 
 # ------------------------------------------------------------------------------------------ apply
